@@ -243,6 +243,22 @@ func ruleC03R3(r *Run) {
 					}
 				})
 			}
+			// or the members are started from a table of method values: each mention of the forwarder as a method
+			// value in run (outside a loop) is one start
+			withAnon(run, func(g *ssa.Function) {
+				allInstrs(g, func(ins ssa.Instruction) {
+					mc, ok := ins.(*ssa.MakeClosure)
+					if !ok {
+						return
+					}
+					if bf, isF := mc.Fn.(*ssa.Function); isF && strings.HasSuffix(bf.Name(), "$bound") && bf.Object() != nil && bf.Object() == fw.Object() {
+						n++
+						if inLoop(ins) {
+							n++ // created once per iteration: started more than once
+						}
+					}
+				})
+			})
 			r.Check("forwarder of "+f+" started once", n == 1, p.pos(fw.Pos()), fnName(fw), fmt.Sprintf("%s is called from %d member(s) of the run group", fnName(fw), n))
 		}
 	}
